@@ -65,4 +65,31 @@ def mergeDicts (used : Nat → Nat → Bool) (dicts : List (List Nat)) : DictMer
 def remapOrd (m : DictMerge) (s o : Nat) : Option Nat :=
   (m.map.find? (fun e => e.1 == s && e.2.1 == o)).map (·.2.2)
 
+/-! ## the merged Str / Bytes column -/
+
+/-- a segment's dictionary-encoded column: its dictionary and its column of term ordinals (`none` =
+the column does not exist in that segment; the dictionary is then empty) -/
+structure DictInput where
+  dict : List Nat
+  ords : MergeInput Nat
+
+/-- mirrors: merge_dict_column.rs::RemappedTermOrdinalsValues — every ordinal the segment's row
+iterator yields goes through the segment's old → new mapping (`get_segment(seg)[ord]`) -/
+def remapInput (dm : DictMerge) (s : Nat) (m : MergeInput Nat) : MergeInput Nat :=
+  { m with col := m.col.map (fun c => (c.1, c.2.map (fun o => (remapOrd dm s o).getD 0))) }
+
+/-- mirrors: merge_bytes_or_str_column — the merged dictionary, then the merged column index and the
+remapped ordinals through the ordinary u64 column merge -/
+def mergeDictColumnAs (card : Card) (used : Nat → Nat → Bool) (order : List (Nat × Nat)) (ins : List DictInput) :
+    List Nat × Index × List Nat :=
+  let dm := mergeDicts used (ins.map (·.dict))
+  (dm.merged, mergeShuffledAs card order (ins.mapIdx (fun s d => remapInput dm s d.ords)))
+
+/-- the terms a reader resolves for every row -/
+def readTerms (dict : List Nat) (idx : Index) (ords : List Nat) : Column (Option Nat) :=
+  (read idx ords).map (fun r => r.map (fun o => dict[o]?))
+
+def DictInput.readTerms (d : DictInput) : Column (Option Nat) :=
+  d.ords.read.map (fun r => r.map (fun o => d.dict[o]?))
+
 end TantivyModel.Columnar
